@@ -3,7 +3,7 @@ import random, itertools
 from collections import Counter
 import common, pool, drv
 
-THEOREMS = ["Formula.mkAnd_eval", "Formula.mkOr_eval", "Formula.mkNot_eval", "Formula.mkImplies_eval",
+THEOREMS = ["Formula.build_eval", "Formula.mkAnd_eval", "Formula.mkOr_eval", "Formula.mkNot_eval", "Formula.mkImplies_eval",
             "Formula.mkEq_eval", "Formula.pyEq_sound", "Formula.canon_sound", "Formula.mkAnd_error_iff",
             "Formula.beq_eq", "Formula.flatten_ws"]
 
